@@ -128,12 +128,22 @@ func checkExtraction(what string, c c15Case, res *sbom.NodeList, wantNodes map[s
 
 // c15Check runs the three extractions at one (graph, start, depth) and returns the first deviation.
 func c15Check(c c15Case) error {
-	g := c.NL.NodeGraph(c.Start)
+	// the graph is used for several extractions in a row; the reference works on a pristine copy, so that an
+	// extraction which disturbs its receiver shows up in the later ones
+	live := c.NL
+	c.NL = cloneNL(live)
+	before := hx.Snapshot(live)
+	defer func() { _ = before }()
+	return c15CheckOn(c, live, before)
+}
+
+func c15CheckOn(c c15Case, live *sbom.NodeList, before string) error {
+	g := live.NodeGraph(c.Start)
 	wn, fol := refReach(c.NL, c.Start, -1, false)
 	if err := checkExtraction("NodeGraph", c, g, wn, fol); err != nil {
 		return err
 	}
-	s := c.NL.NodeSiblings(c.Start)
+	s := live.NodeSiblings(c.Start)
 	wn, fol = refReach(c.NL, c.Start, 2, true)
 	if c.Start == "" {
 		wn, fol = map[string]int{}, map[hx.Triple]struct{}{}
@@ -143,7 +153,7 @@ func c15Check(c c15Case) error {
 	}
 	var prev hx.Sets
 	for d := 1; d <= c.Depth; d++ {
-		r := c.NL.NodeDescendants(c.Start, d)
+		r := live.NodeDescendants(c.Start, d)
 		wn, fol = refReach(c.NL, c.Start, d, true)
 		if err := checkExtraction(fmt.Sprintf("NodeDescendants(depth %d)", d), c, r, wn, fol); err != nil {
 			return err
@@ -162,6 +172,22 @@ func c15Check(c c15Case) error {
 			}
 		}
 		prev = cur
+	}
+	// and once more in the opposite order: deepest first, then the full graph
+	for d := c.Depth; d >= 1; d-- {
+		r := live.NodeDescendants(c.Start, d)
+		wn, fol = refReach(c.NL, c.Start, d, true)
+		if err := checkExtraction(fmt.Sprintf("NodeDescendants(depth %d, second round)", d), c, r, wn, fol); err != nil {
+			return err
+		}
+	}
+	g = live.NodeGraph(c.Start)
+	wn, fol = refReach(c.NL, c.Start, -1, false)
+	if err := checkExtraction("NodeGraph (after the other extractions)", c, g, wn, fol); err != nil {
+		return err
+	}
+	if hx.Snapshot(live) != before {
+		return fmt.Errorf("the extractions modified the graph they were applied to")
 	}
 	return nil
 }
